@@ -50,6 +50,19 @@ func c15(w *World) {
 
 	switch ending {
 	case "peer-logout":
+		if w.W.Chance(1, 3) {
+			// stay silent until the library probes us: the Logout then arrives while a TestRequest is outstanding
+			tol := hb / 20
+			if tol < 1 {
+				tol = 1
+			}
+			T := time.Duration(hb+tol) * time.Second
+			simrt.Sleep(T + T/10 + time.Millisecond)
+			sc.Settle()
+			if count(sc.P.Take(), "1") > 0 {
+				w.Probe("peer_logout_while_probe_outstanding")
+			}
+		}
 		r := dropTimer(sc.Step(sc.Msg("5")))
 		if !sc.checkFraming(r) {
 			return
@@ -150,7 +163,15 @@ func c15(w *World) {
 			}
 			w.Probe("stop_deadline_path")
 		} else {
-			simrt.Sleep(ans)
+			if ans > 2*time.Millisecond && w.W.Chance(1, 2) {
+				// other inbound traffic before the answer is not the answer
+				simrt.Sleep(ans / 2)
+				sc.Step([][]byte{sc.Msg("0"), sc.Msg("1", F(TagTestReqID, "mid")), sc.Msg("D", F(11, "mid"))}[w.W.Draw(3)])
+				simrt.Sleep(ans - ans/2)
+				w.Probe("traffic_between_stop_and_answer")
+			} else {
+				simrt.Sleep(ans)
+			}
 			sc.Settle()
 			if doneSeen && doneAt.Sub(t0) < ans {
 				// cancelled before the answer and before the deadline
